@@ -109,8 +109,13 @@ def r1_r2_r4(cx, f):
         for b in body.blocks:
             if b.cleanup or b.term.kind != "switch": continue
             c = switch_cond(body, du, b.term)
-            if c.kind == "discr":
+            if c.kind == "discr" and "ControlFlow" not in str(body.ty(c.place.l)) and not str(body.ty(c.place.l)).lstrip("&").startswith("std::result::Result"):
                 orig = [o for k, o in f.sl.origins(c.place) if k == "call"]
+                for o in list(orig):
+                    # `a.take().zip(b.take())` matched on Some: both were present
+                    if not o.callee.indirect and o.callee.name == "zip" and "Option" in (o.callee.path + str(o.callee.impl_self or "")):
+                        for a in o.args:
+                            orig += [x for k, x in f.sl.origins(a) if k == "call"]
                 for o in orig:
                     if id(o) in per_take:
                         e = variant_edge(b.term, 1); some_edges.append(e); per_take[id(o)].append(e)
